@@ -209,7 +209,7 @@ def run(tier, seed):
             W = max([book.w[s]] + [c + 1 for (ss, c, r) in lw if ss == s])
             H = max([book.h[s]] + [r + 1 for (ss, c, r) in lw if ss == s])
             ex = realcode.executor_for(cls)
-            ex.set_cells([em.mk_cell(Cell, t, 'num', v) for op in setup for t, v, _ in op[1]])
+            ex.set_cells([em.mk_cell(Cell, t, 'num', v) for op in setup if op[0] == 'set' for t, v, _ in op[1]])
             try:
                 grid = ex.get_sheet(s)
             except Exception:  # a failing cell fails the whole grid; the model stream covers that
